@@ -1804,3 +1804,16 @@ mut2(
     [{"file": "cdd/compound/exmod_utils.py", "old": "        else sanitised_emit_name\n    )\n    emitter = getattr(", "new": "        else emit_name\n    )\n    emitter = getattr("}],
     base="C20_w3_3",
 )
+mut2(
+    "c06-rename-in-helper-then-guard-reads-the-old-key",
+    "C06",
+    "C06.stale",
+    [
+        {
+            "file": "cdd/json_schema/utils/emit_utils.py",
+            "old": '    if isinstance(_param.get("choices"), Set):\n',
+            "new": '    if isinstance(_param.get("default"), str) and _param.get("typ") != "str":\n        _param["default"] = ast.literal_eval(_param["default"])\n    if isinstance(_param.get("choices"), Set):\n',
+        }
+    ],
+    base="C06_w3_2",
+)
